@@ -6,8 +6,8 @@ CONSTANTS
   H = 3
   MaxBlocks = 3
   MaxEvents = 2
-  MaxLeaves = 4
-  MaxOps = 4
+  MaxLeaves = 3
+  MaxOps = 5
   Faults = {"reorg"}
   AllowGap = TRUE
   Dups = FALSE
